@@ -139,6 +139,13 @@ def mutations(rng, tok, key, alg, pool, dense):
         yield ("[unusable,key] all=%s" % all_, tok, None, [bad, key], all_, not all_)
         yield ("[junk,key] all=%s" % all_, tok, None, [5, key], all_, not all_)
         yield ("[other,other] all=%s" % all_, tok, None, [other, other], all_, False)
+        # a key that may not verify (use / key_ops) verifies nothing: under `all` it is a demanded key that failed, not a
+        # key to be skipped - whether it is the signing key itself or another one, before or behind the genuine key
+        for why_, rk in (("the key with use enc", dict(key, use="enc")), ("the key with key_ops [sign]", dict(key, key_ops=["sign"])),
+                         ("another key with use enc", dict(other, use="enc")), ("another key with key_ops []", dict(other, key_ops=[]))):
+            yield ("[key, %s] all=%s" % (why_, all_), tok, None, [key, rk], all_, not all_)
+            yield ("{keys:[%s, key]} all=%s" % (why_, all_), tok, None, {"keys": [rk, key]}, all_, not all_)
+        yield ("[the key with use enc] all=%s" % all_, tok, None, [dict(key, use="enc")], all_, False)
         yield ("keys not array all=%s" % all_, tok, None, {"keys": key}, all_, False)
         # key lists inside key lists: the inner list inherits any / all
         yield ("[{keys:[key,other]}] all=%s" % all_, tok, None, [{"keys": [key, other]}], all_, not all_)
